@@ -671,3 +671,87 @@ def riscv_imm_patterns(ctx):
             elif rep.rsplit("keep=", 1)[-1] != "1":
                 ctx.fail(f"riscv-imm:{march}:{name}:side-effect", f"{tname}(reg, {v}): `{rep[3:].split(' val=')[0]}` changes more than the destination", case)
     return reqs, finish
+
+
+# ------------------------------------------------------------------------------------------------
+# riscv prologue / epilogue: stack discipline
+# ------------------------------------------------------------------------------------------------
+
+def _encode_list(items):
+    """bytes of the encodable instructions of a prologue/epilogue list, up to and including the return"""
+    from ppci.arch.generic_instructions import ArtificialInstruction
+    code = bytearray()
+    n = 0
+    for it in items:
+        flat = list(it.render()) if isinstance(it, ArtificialInstruction) else [it]
+        for i in flat:
+            if not getattr(i, "tokens", None):
+                continue            # labels, section switches, alignment
+            code += i.encode()
+            n += 1
+            if type(i).__name__ in ("Blr", "CJr", "Blr_ins", "CJr_ins") or str(i).startswith(("jalr", "c.jr")):
+                return bytes(code), n
+    return bytes(code), n
+
+
+def riscv_frames(ctx):
+    """REAL gen_prologue/gen_epilogue lists for many (used registers, stack size, outgoing-argument area) combinations:
+    decoded and compared with Model.RVFrame, and executed by Spec.RV32 around an adversarial body (driver op rvframerun):
+    sp, fp, ra and every callee-saved register the frame uses must be back, nothing at or above the entry sp may be written"""
+    from ppci.api import get_arch
+    from ppci.arch.riscv import registers as R
+    rng = ctx.rng
+
+    def rup(s):
+        return s + (16 - s % 16)
+    reqs, meta = [], []
+    for march in ("riscv", "riscv:rvc"):
+        arch = get_arch(march)
+        cs = list(arch.callee_save)
+        others = [R.R10, R.R11, R.R12, R.R5, R.R6, R.R28]
+        used_sets = [[], [cs[0]], [cs[1]], [cs[0], cs[1]], [cs[-1]], cs[:4], cs, [cs[2], cs[5], others[0]], others[:3]]
+        for _ in range(60 if ctx.thorough else 10):
+            used_sets.append(rng.sample(cs, rng.randint(1, len(cs))) + rng.sample(others, rng.randint(0, 3)))
+        stacks = [0, 1, 4, 7, 8, 9, 16, 24, 40, 100, 500, 1000, 1900]
+        outs = [[], [4], [8], [16], [4, 12], [40], [100], [12, 4, 8]]
+        combos = [(u, st, oc) for u in used_sets[:9] for st in (0, 8, 24) for oc in outs[:5]]
+        for _ in range(600 if ctx.thorough else 80):
+            combos.append((rng.choice(used_sets), rng.choice(stacks), rng.choice(outs)))
+        for used, st, oc in combos:
+            frame = arch.new_frame("f", None)
+            frame.used_regs = set(used)
+            frame.stacksize = st
+            frame.out_calls = list(oc)
+            case = {"march": march, "used_regs": sorted(r.name for r in used), "stacksize": st, "out_calls": oc}
+            try:
+                pro, _ = _encode_list(list(arch.gen_prologue(frame)))
+                epi, _ = _encode_list(list(arch.gen_epilogue(frame)))
+            except Exception as e:  # noqa
+                ctx.fail(f"riscv-frame:{march}:raises", f"gen_prologue/gen_epilogue raised {type(e).__name__}: {e}", case)
+                continue
+            saved = [r.num for r in cs if r in frame.used_regs]
+            extras = max(oc) if oc else 0
+            regs = ",".join(map(str, saved)) or "-"
+            reqs.append(f"rvframe {st} {extras} {regs}")
+            reqs.append(f"decx {pro.hex()}")
+            reqs.append(f"decx {epi.hex()}")
+            reqs.append(f"rvframerun {pro.hex()} {epi.hex()} {rup(st + 8)} {rup(4 * len(saved))} {rup(extras) if extras else 0} {regs}")
+            meta.append((march, case, len(saved), extras))
+
+    def finish(out):
+        for k, (march, case, nsaved, extras) in enumerate(meta):
+            model, dpro, depi, run = out[4 * k:4 * k + 4]
+            ctx.count("eval_riscv_frame_" + march.replace(":", "_"))
+            if nsaved and extras:
+                ctx.nontrivial(("frame", march, tuple(case["used_regs"]), case["stacksize"], tuple(case["out_calls"])))
+            real = f"ok {dpro[3:]} | {depi[3:]}"
+            if real != model:
+                ctx.disagree(f"riscv gen_prologue/gen_epilogue ({march})", case, real[:600], model[:600])
+            if run != "ok restored":
+                why = run.split(" ", 2)[2] if run.startswith("ok broken ") else run
+                ctx.fail(f"riscv-frame:{march}:{why.split(':')[0]}",
+                         f"{march}: prologue + adversarial body + epilogue for used={case['used_regs']} stacksize={case['stacksize']} "
+                         f"out_calls={case['out_calls']}: {why}; prologue `{dpro[3:]}`; epilogue `{depi[3:]}`", case)
+        if meta:
+            ctx.sample({"frame": meta[-1][1], "model": out[4 * (len(meta) - 1)][:300]})
+    return reqs, finish
